@@ -173,15 +173,17 @@ def replay_chunk(jobs):
     return dict(res=[replay(job) for job in jobs])
 
 
-def jobs_for(behaviours, rng_offset=0):
-    """every behaviour on the structured route, and on one of the other routes in turn"""
+def jobs_for(behaviours, rng_offset=0, every_other=False):
+    """every behaviour on the structured route, and (every behaviour / every other one) on one of the other routes in turn"""
     jobs = []
     for n, beh in enumerate(behaviours):
         nd = len(beh['topo']['axes'])
         variants = VARIANTS_1D if nd == 1 else VARIANTS_2D
         kw = 'tol' if (n + rng_offset) % 2 == 0 else 'eps'
         jobs.append(dict(beh=beh, variant='struct', kw=kw))
-        other = variants[1 + (n + rng_offset) % (len(variants) - 1)]
+        if every_other and n % 2:
+            continue
+        other = variants[1 + ((n + rng_offset) // (2 if every_other else 1)) % (len(variants) - 1)]
         if other == 'embed' and any(c['m']['s'][0] == 0 for c in beh['hist']):
             other = 'take'
         jobs.append(dict(beh=beh, variant=other, kw='eps' if kw == 'tol' else 'tol'))
